@@ -165,6 +165,31 @@ fn matrix_leg(g: &Grammar, triples: bool) -> Acc {
     ] {
         texts.push(t.to_string());
     }
+    // moderate-size structures: long lists / maps, deep nesting, long same-level chains
+    for n in [3usize, 4, 5, 8, 13] {
+        let items: Vec<String> = (0..n).map(|i| format!("x{i}")).collect();
+        texts.push(format!("[{}]", items.join(", ")));
+        texts.push(format!("[{},]", items.join(", ")));
+        texts.push(format!("[{},,]", items.join(", ")));
+        texts.push(format!("[{}]", items.join(" ")));
+        let pairs: Vec<String> = (0..n).map(|i| format!("k{i}: x{i} + i{i}")).collect();
+        texts.push(format!("{{{}}}", pairs.join(", ")));
+        texts.push(format!("{{{},}}", pairs.join(", ")));
+        texts.push(format!("{{{}}}", pairs.join("; ")));
+        for op in BIN_TOKENS {
+            texts.push(items.join(&format!(" {op} ")));
+        }
+        texts.push(format!("{}x{}", "f(".repeat(n), ")".repeat(n)));
+        texts.push(format!("{}x{}", "[".repeat(n), "]".repeat(n)));
+        texts.push(format!("{}x{}", "(".repeat(n), ")".repeat(n)));
+        texts.push(format!("{}x{}", "(".repeat(n), ")".repeat(n - 1)));
+        texts.push(format!("{}x{}", "{a: ".repeat(n), "}".repeat(n)));
+        texts.push(format!("{}x", "- ! ".repeat(n)));
+        texts.push(format!("x{}", ".a.0".repeat(n)));
+        texts.push(format!("{}z", "if a then b else ".repeat(n)));
+        texts.push(format!("{}a{}", "if ".repeat(n), " then b else c".repeat(n)));
+        texts.push(format!("{}z", "if a then b else ".repeat(n)).replace("else z", "z"));
+    }
     texts.sort();
     texts.dedup();
     texts
